@@ -96,6 +96,92 @@ def diff_rows(it):
     return rows
 
 
+def _vals(decls, env):
+    """values of all flat declarations for a valuation of the `in` declarations (by name)"""
+    vals = []
+    for d in decls:
+        if d[0] == "in":
+            vals.append(fa.wrap32(env.get(d[1], 0)))
+        else:
+            vals.append(fa.ev(d[2], vals))
+    return vals
+
+
+def latch_history(it, rows, rng):
+    """a concrete history on which the emitted latch misbehaves: (optionally) a phase that turns the latch on,
+    then a phase of constant inputs realising a differing row; the circuit is run tick by tick in the
+    concrete model (Circuit.step at V = Z) and every output compared with the specification's value for
+    the bit the table demands"""
+    m = next(iter(it.mems.values()))
+    ins = [d[1] for d in it.decls if d[0] == "in"]
+    free = [n_ for n_ in ins if not n_.startswith("_")]
+    cands = sorted(set(S.BOUNDARY) | set(S.thresholds(it.decls)))
+
+    def find_envs(want_s, want_r, k=10):
+        import itertools
+        if len(cands) ** max(1, len(free)) <= 4000:
+            pool = [dict(zip(free, t)) for t in itertools.product(cands, repeat=len(free))]
+            rng.shuffle(pool)
+        else:
+            pool = [{n_: rng.choice(cands) for n_ in free} for _ in range(4000)]
+        out = []
+        for env in pool:
+            v = _vals(it.decls, env)
+            try:
+                s_ = fa.ev(m["set"], v) > 0
+                r_ = fa.ev(m["reset"], v) > 0
+            except Exception:  # noqa: BLE001
+                return []
+            if s_ == want_s and r_ == want_r:
+                out.append(env)
+                if len(out) >= k:
+                    break
+        return out
+
+    try:
+        defs, expr, meta = S.case_for(it.id, it.decls, it.bpj, entities=it.entities, mems=it.mems)
+    except Exception:  # noqa: BLE001
+        return None
+    n = meta["entities"]
+    T = n + 6
+    first = bool(m.get("set_first"))
+
+    def lst(env):
+        return "[" + "; ".join(fa.zc(fa.wrap32(env.get(d[1], 0)) if d[0] == "in" else 0) for d in it.decls) + "]"
+
+    trials, exprs = [], []
+    # the differing rows first, then every other row of the table: a deviation outside the boolean
+    # abstraction (a latch that shows something else than 0 / 1) only appears in a concrete run
+    every = [(b_, s_, r_) for b_ in (False, True) for s_ in (False, True) for r_ in (False, True)]
+    for bit, s_, r_ in list(rows) + [x for x in every if x not in rows]:
+        ons = find_envs(True, False, 3) if bit else [None]
+        for e1 in ons:
+            for e2 in find_envs(s_, r_):
+                nb = True if (s_ and not r_) else False if (r_ and not s_) else bit if (not s_ and not r_) else first
+                spec_env = dict(e2)
+                spec_env["_ml_" + m["name"]] = 1 if nb else 0
+                start = f"(run (zalg (env_of {lst(e1)})) bp_{it.id} {T}%nat)" if bit else f"(init bp_{it.id})"
+                exprs.append(f"let e2 := env_of {lst(e2)} in let es := env_of {lst(spec_env)} in "
+                             f"let st := Nat.iter {T}%nat (step (zalg e2) bp_{it.id}) {start} in "
+                             f"let vals := den_prog (zalg es) (b_univ bp_{it.id}) ds_{it.id} in "
+                             f"map (fun q => (observe (zalg e2) bp_{it.id} st (q_obs ds_{it.id} q), nth (q_decl q) vals 0)) qs_{it.id}")
+                trials.append((bit, s_, r_, e1, e2, nb))
+    if not exprs:
+        return None
+    rc, outs, text = H.coq_eval(defs, exprs, S.EXTRA, tag=f"lh{it.id}")
+    for (bit, s_, r_, e1, e2, nb), o in zip(trials, outs or []):
+        if o is None:
+            continue
+        pairs = [(int(a), int(b)) for a, b in re.findall(r"\((-?\d+),\s*(-?\d+)\)", o.replace("%Z", ""))]
+        if any(a != b for a, b in pairs):
+            names = [o_[0] for o_ in meta["outputs"]][:len(pairs)]
+            return {"history": ([{"inputs": e1, "ticks": T, "purpose": "turn the latch on (set active, reset not)"}] if bit else [])
+                               + [{"inputs": e2, "ticks": T, "row(bit,set,reset)": [bit, s_, r_]}],
+                    "latch_bit_demanded_by_the_table": nb,
+                    "observed_vs_expected": [{"output": o_, "observed": a, "expected": b} for o_, (a, b) in zip(names, pairs)]}
+    return None
+
+
 def run(tier, seed, t0):
     holder = {}
 
@@ -124,6 +210,10 @@ def run(tier, seed, t0):
                 it.detail["differing_rows(bit,set,reset)"] = rows
             elif rows is not None:
                 it.detail["differing_rows(bit,set,reset)"] = rows
+            if it.status == "violation" and rows and not it.detail.get("failing_input"):
+                h = latch_history(it, rows, random.Random(1))
+                if h:
+                    it.detail["failing_input"] = h
         counts["S3"] += n_s3
         counts["S4"] += n_s4
 
